@@ -73,8 +73,8 @@ ROUTING = ("radio glue routes per PDU outcomes as nrf52.hpp radio_interrupt_hand
 
 SPECS = [
     Spec("C15", "fault_enumeration",
-         rule="for every buffer/layout/size/encryption configuration and 8 deterministic traffic shapes (idle, central data, slow "
-              "consumer, peripheral data, both, alternating, commit after an empty PDU went out, bursts) ALL 7^k per-event outcome "
+         rule="for every buffer/layout/size/encryption configuration and 9 deterministic traffic shapes (idle, central data, slow "
+              "consumer, peripheral data, both, alternating, commit after an empty PDU went out, bursts, reserved-LLID mix) ALL 7^k per-event outcome "
               "patterns (central->peripheral lost | {crc, ok} x peripheral->central {ok, lost, crc}) of the first k connection events are "
               "enumerated (k=4 quick; thorough 6 for the 29/61/100 byte buffers, 5 for the others), followed by a fault free drain; plus seeded random runs of 200 events with six loss "
               "profiles, random traffic, random upper-layer consumption and a central that sometimes NAKs for flow control. The central "
@@ -93,11 +93,18 @@ SPECS = [
                             "ack_for_data_reached_peripheral", "ack_for_empty_reached_peripheral", "delivered_to_upper_layer",
                             "central_accepted_data", "central_ignored_retransmitted_data", "central_ignored_retransmitted_empty",
                             "central_data_acknowledged", "central_busy_nak", "commit", "commit_while_empty_pdu_unacknowledged",
-                            "tx_alloc_no_memory", "run_completed_everything_delivered"],
+                            "tx_alloc_no_memory", "run_completed_everything_delivered",
+                            "c2p_reserved_llid_pdu_received", "c2p_reserved_llid_pdu_retransmission_received",
+                            "upper_layer_took_pdu_while_radio_owned_receive_buffer", "commit_finished_after_radio_interrupt"],
                 "counters": {"enumerated_patterns": 500000, "config_shape_combinations": 300}},
          assumptions=[GRID, ROUTING,
                       "one PDU per direction per connection event (the nRF52 binding never continues an event; MD is ignored)",
-                      "PDUs with the reserved LLID 0 and stop_ll_pdu_buffer() are not part of the workload",
+                      "about 1 in 5 of the central's data PDUs (every second one in the shape reserved_llid_mix, 8% in random runs) carries the reserved "
+                      "LLID 0b00 with a non-zero length: it must never reach the upper layer; whether it is acknowledged is not judged",
+                      "stop_ll_pdu_buffer() is not part of the workload",
+                      "link layer / radio interrupt interleavings: in some shapes and a third of the random events the upper layer frees PDUs after the "
+                      "radio got its next receive buffer and before the interrupt is served, and the link layer assembles a PDU in an allocated "
+                      "transmit buffer while an interrupt acknowledges others; memory handed out must not be modified by the buffer meanwhile",
                       "bounded progress is part of the oracle: after the enumerated/random part a fault free drain of (backlog + 5) events "
                       "with an idle upper layer must deliver everything (keys C15:progress:*)"],
          crash_owner=False, design_ref="4/C15", technique="independent 4.5.9 central + lossy channel, exhaustive outcome patterns for k events + random runs, ASan/UBSan"),
@@ -107,7 +114,8 @@ SPECS = [
               "increment_transmit_packet_counter calls is compared with the expectation derived from what was fed in: receive +1 exactly "
               "when a non-empty PDU is handed to received() for the first time, transmit +1 exactly when a header whose NESN acknowledges "
               "the outstanding non-empty PDU is handed to received()/acknowledge(); 0 otherwise (retransmissions, empty PDUs, CRC errors, "
-              "no receive buffer, MIC failed retransmissions). End to end: every non-empty PDU is stamped with the sender's counter at first "
+              "no receive buffer, MIC failed retransmissions). A non-empty PDU with the reserved LLID 0 uses up its nonce when it is "
+              "acknowledged: receive +1 exactly with the first response whose NESN acknowledges it. End to end: every non-empty PDU is stamped with the sender's counter at first "
               "transmission and must meet an equal counter at the receiver (nonce neither skipped nor reused); conservation of all four "
               "counters after the drain. distinct_nontrivial = distinct (routing, empty/data, new/retransmitted, already accepted, outstanding "
               "kind, ack reached peripheral, observed increments, encryption, layout) of events involving a non-empty PDU or a retransmission.",
@@ -116,10 +124,15 @@ SPECS = [
                 "classes": ["rx_new_data_increment", "rx_retransmitted_data_no_increment", "rx_new_empty_no_increment",
                             "rx_retransmitted_empty_no_increment", "rx_crc_error_no_increment", "rx_no_buffer_no_increment",
                             "rx_mic_failed_retransmission_no_increment", "tx_data_acknowledged_increment",
-                            "tx_data_not_acknowledged_no_increment", "tx_empty_acknowledged_no_increment", "tx_empty_not_acknowledged"],
+                            "tx_data_not_acknowledged_no_increment", "tx_empty_acknowledged_no_increment", "tx_empty_not_acknowledged",
+                            "rx_reserved_llid_acknowledged_increment", "rx_reserved_llid_retransmission_no_increment",
+                            "rx_reserved_llid_not_received_no_increment"],
                 "counters": {"enumerated_patterns": 500000, "config_shape_combinations": 300}},
          assumptions=[GRID, ROUTING,
-                      "counter::increment of nrf52.cpp (39 bit carry) is family E's part of C16; here the calls are counted"],
+                      "counter::increment of nrf52.cpp (39 bit carry) is family E's part of C16; here the calls are counted",
+                      "reserved LLID 0b00 (Core Vol 6 Part B 2.4), non-zero length: the counter expectation is tied to the acknowledgement "
+                      "(the central advances its packet counter when it sees the ack), not to the mere reception; a peripheral that never "
+                      "acknowledges such a PDU is not judged; a MIC-failed PDU with the reserved LLID may be ignored as a whole"],
          crash_owner=False, design_ref="4/C16", technique="call counting against fed-in events + counter stamps end to end, same exhaustive/random runs as C15"),
 
     Spec("C17", "fault_enumeration",
